@@ -302,6 +302,27 @@ def const_matches_literal(src, lit):
         return False
 
 
+def _default_returns_const(facts, default_fn, src):
+    """Does `<T as Default>::default` return exactly the named constant `src` (no other computation)?"""
+    b = facts.bodies.get(default_fn)
+    if b is None:
+        return False
+    if any(True for _bi, _t in b.calls()):
+        return False
+    names = set()
+    for _bi, _si, st in b.iter_stmts():
+        if st["k"] != "assign":
+            continue
+        rv = st["rv"]
+        if rv["k"] == "use" and rv["op"].get("k") == "const":
+            names.add(rv["op"].get("cdef"))
+        elif rv["k"] == "use":
+            continue
+        else:
+            return False
+    return len(names) == 1 and (src[1] in names or src[2] in names)
+
+
 def _prim_default(s):
     """Literal of `Default::default()` for a primitive type (or a field of a tuple of primitives), else None."""
     PR = {"bool": "false", "f32": "0.0", "f64": "0.0", "char": None}
@@ -426,6 +447,10 @@ def run(facts, tier, ctx):
                     want = "<%s as std::default::Default>::default" % inner[0]
                     if len(srcs) == 1 and srcs[0][0] == "call" and srcs[0][1] == want:
                         r_def.ok({"field": "%s.%s" % (ty, fld["name"]), "default": want, "verdict": "ok"})
+                    elif len(srcs) == 1 and srcs[0][0] == "const" and _default_returns_const(facts, want, srcs[0]):
+                        # a named constant that the nested type's own Default::default returns as it is
+                        r_def.ok({"field": "%s.%s" % (ty, fld["name"]), "default": "%s (= %s())" % (srcs[0][1], want),
+                                  "verdict": "ok"})
                     else:
                         r_def.fail(Finding("DEFAULTS", ty, "nested-default:" + fld["name"], 0, where,
                                            "Default::default of %s initialises `%s` from %s, not from %s(): an omitted "
@@ -476,7 +501,9 @@ def run(facts, tier, ctx):
             vname, fname, cited = m.groups()
             srcs = defaults.get((ty, vname, fname))
             cands = resolve_cited(facts, cited)
-            if dflt_variant == vname and srcs and len(srcs) == 1 and srcs[0][0] == "const" and srcs[0][2] in cands:
+            cvals_e = [facts.const_value(c) for c in cands if facts.const_value(c) is not None]
+            if dflt_variant == vname and srcs and len(srcs) == 1 and srcs[0][0] == "const" and (
+                    srcs[0][2] in cands or (len(srcs[0]) > 3 and srcs[0][3] is not None and srcs[0][3] in cvals_e)):
                 r_def.ok({"type": ty, "documented": "%s{%s=%s}" % (vname, fname, cited), "verdict": "ok"})
             else:
                 r_def.fail(Finding("DEFAULTS", ty, "enum-default-differs", 0, adt["file"],
